@@ -427,7 +427,7 @@ def literal_refs_alt(items):
 
 
 def glue_subsets(items):
-    """every way of showing some of the wrap runs that touch an inline element / comment as nothing (at most 5 runs)"""
+    """every way of showing some of the wrap runs that touch an inline element / comment as nothing (at most 10 runs)"""
     runs, i, n = [], 0, len(items)
     solid = lambda it: it[0] in ("o", "c", "com", "pi")        # noqa: E731
     while i < n:
@@ -440,7 +440,7 @@ def glue_subsets(items):
             i = j
         else:
             i += 1
-    runs = runs[:5]
+    runs = runs[:10]
     out = []
     for mask in range(1, 2 ** len(runs)):
         drop = set()
@@ -449,6 +449,27 @@ def glue_subsets(items):
                 drop.update(range(i, j))
         out.append([it for k, it in enumerate(items) if k not in drop])
     return out
+
+
+def strip_alt(items):
+    """DFXP/SAMI: Unicode white space (U+00A0 ...) directly after or before a source line wrap is removed by the readers'
+    lstrip()/strip() together with the indentation"""
+    out, changed = [], False
+    for k, it in enumerate(items):
+        if it[0] == "t":
+            cs = list(it[1])
+            if k > 0 and items[k - 1][0] == "w":
+                while cs and chr(cs[0][0]).isspace():
+                    cs.pop(0)
+                    changed = True
+            if k + 1 < len(items) and items[k + 1][0] == "w":
+                while cs and chr(cs[-1][0]).isspace():
+                    cs.pop()
+                    changed = True
+            out.append(("t", cs))
+        else:
+            out.append(it)
+    return out if changed else None
 
 
 def classify_known(viols):
@@ -465,6 +486,11 @@ def classify_known(viols):
             for alt in alts:
                 reqs.append((408, [wire_items(alt), v["observed"]]))
                 slots.append((v, kind))
+            for base_items in [items] + alts[:12]:
+                st = strip_alt(base_items)
+                if st is not None:
+                    reqs.append((408, [wire_items(st), v["observed"]]))
+                    slots.append((v, "unicode-space-stripped-at-wrap"))
             continue
         elif v["fmt"] == "WebVTT":
             alt, kind = literal_refs_alt(items), "vtt-character-reference-left-literal"
@@ -750,6 +776,8 @@ def tokens_for(fmt):
             toks += [[("e", n)] for n in ("Eacute", "eacute", "Prime", "apos", "amp")]
         # whole inline elements as single tokens: adjacent elements separated only by a white-space text node
         toks += [[("o", 0), T("Hello"), ("c", 0)], [("o", 1), T("world"), ("c", 1)]]
+        # a no-break space at the start of a continuation line (known finding: stripped with the indentation)
+        toks += [[T("a"), ("w", 3), ("t", [(160, 1)]), T("b")]]
         return toks
     if fmt == "SRT":
         return [[T("a")], [T(" ")], [T("<i>")], [T("&amp;")], [T("1")], [T("-->")], [("br",)], [T("|")], [T("{y:i}")],
@@ -851,6 +879,7 @@ def run(ctx):
             continue
         seen.add(key)
         res["violations"][i] = shrink(v)
+    classify_known([v for v in res["violations"] if v["kind"] == "text-differs"])      # a shrunk input may show a known failure
     res["rule"] = ("A: 12-cue documents of random structured inline content per format (1-3 lines, nested inline tags in every "
                    "start-tag shape, per-character spellings raw/named/decimal/hex, source line wraps also next to inline "
                    "elements, comments/PIs, U+2028/U+0085/FF/U+00A0 in text, WebVTT voice/timestamp/unknown tags); B: token "
